@@ -96,7 +96,8 @@ type Out struct {
 	prop     string
 	shards   int
 	header   string // Coq header (imports) for each shard
-	runner   string // Coq function of type case -> verdict
+	runner   string
+	hyp      string // optional: Coq predicate on cases = hypothesis of the property's theorem // Coq function of type case -> verdict
 	terms    [][]string
 	idx      [][]int
 	n        int
@@ -155,6 +156,9 @@ func (o *Out) Close() error {
 		}
 		fmt.Fprintf(&b, "Definition cases := List.concat [%s].\n", strings.Join(chunks, ";\n "))
 		fmt.Fprintf(&b, "Definition R := Eval vm_compute in (run_cases %s cases).\nPrint R.\n", o.runner)
+		if o.hyp != "" { // on how many cases the property theorem's hypothesis holds
+			fmt.Fprintf(&b, "Definition H := Eval vm_compute in (count_hyp %s cases).\nPrint H.\n", o.hyp)
+		}
 		if err := os.WriteFile(filepath.Join(o.dir, fmt.Sprintf("cases_%02d.v", s)), []byte(b.String()), 0o644); err != nil {
 			return err
 		}
